@@ -12,6 +12,7 @@ func init() {
 	vRegister("H_C16_readonly", H_C16_readonly)
 	vRegister("H_C16_vacuity", H_C16_vacuity)
 	vRegister("H_C20_record", H_C20_record)
+	vRegister("H_C20_apl", H_C20_apl)
 	vRegister("H_C20_opt", H_C20_opt)
 	vRegister("H_C20_dedup", H_C20_dedup)
 	vRegister("H_C20_vacuity", H_C20_vacuity)
@@ -319,6 +320,43 @@ func H_C20_record() {
 	o2, _, err2 := UnpackRR(w2, 0)
 	vAssume(err2 == nil)
 	vAssert(IsDuplicate(rr2, o2) == eq, "wire-records-duplicate-iff-canonical-wire-equal")
+}
+
+// H_C20_apl: two APL records as they come from the wire, each with one item whose family, prefix length, negation
+// flag, address length and address octets are drawn independently (so an IPv4 prefix meets the IPv4-mapped IPv6
+// prefix with the same trailing octets): duplicates exactly when the RDATA octets are equal.
+func H_C20_apl() {
+	build := func(p string) []byte {
+		fam := 1 + vChoice(p+"fam", 2)
+		prefix := []int{0, 8, 24, 32}[vChoice(p+"prefix", 4)]
+		var alen int
+		if fam == 1 {
+			alen = []int{0, 1, 3, 4}[vChoice(p+"alen", 4)]
+		} else {
+			alen = []int{0, 3, 15, 16}[vChoice(p+"alen", 4)]
+		}
+		nb := byte(alen)
+		if vBool(p + "neg") {
+			nb |= 0x80
+		}
+		rd := []byte{0, byte(fam), byte(prefix), nb}
+		a := vBytes(p+"afd", alen)
+		if alen > 0 {
+			vAssume(a[alen-1] != 0)
+		}
+		rd = append(rd, a...)
+		w := []byte{1, 'a', 0, 0, 42, 0, 1, 0, 0, 0, 0, 0, byte(len(rd))}
+		return append(w, rd...)
+	}
+	w1, w2 := build("p."), build("q.")
+	r1, _, e1 := UnpackRR(w1, 0)
+	r2, _, e2 := UnpackRR(w2, 0)
+	vAssume(e1 == nil && e2 == nil)
+	vReach("apl-built")
+	got := IsDuplicate(r1, r2)
+	vObserve("apl", got)
+	vAssert(got == refBytesEqual(w1, w2), "wire-records-duplicate-iff-canonical-wire-equal")
+	vAssert(IsDuplicate(r2, r1) == got, "symmetric")
 }
 
 // vWireEqualFold compares two reference wire records of the same shape ignoring the TTL and folding
